@@ -50,6 +50,12 @@ fn promise_case<P: G>(cfg: Cfg, j: usize, tier: Tier, top: bool) -> Box<dyn Case
             };
             res.executions += 1;
             let pv = norm(p);
+            // a proof that is not accepted under its own, identical statement is C01's finding: accept-expectations are
+            // then skipped (reject-expectations still hold)
+            let base_ok = verify_observed_one(&built.statement, &proof, &CTX_A, VerifyAction::VerifyOnly).is_ok();
+            if !base_ok {
+                *res.outcome_counter("own-statement-not-accepted(accept-expectations skipped)") += 1;
+            }
             let mut subs: Vec<Option<u64>> = vec![
                 None,
                 Some(0),
@@ -80,6 +86,9 @@ fn promise_case<P: G>(cfg: Cfg, j: usize, tier: Tier, top: bool) -> Box<dyn Case
                     res.executions += 1;
                     res.validated += 1;
                     *res.outcome_counter(&format!("substitution:{}", obs.class())) += 1;
+                    if expect_ok && !base_ok && obs.is_err() {
+                        continue;
+                    }
                     if obs.panic.is_some() || obs.is_ok() != expect_ok {
                         res.violate(
                             format!("created={:?}/verified={:?}/{}", p, p2, mode_name(mode)),
@@ -130,6 +139,12 @@ fn promise_case<P: G>(cfg: Cfg, j: usize, tier: Tier, top: bool) -> Box<dyn Case
                     cw.promises[0] = comp_promise;
                     let comp = build_cached::<P>(&comp_cfg, &cw).expect("valid");
                     let comp_proof = lib_prove(&comp, &CTX_A, &mut HRng::chacha(43)).expect("honest");
+                    // precondition (C01 / C03): the same two triples verify together when neither carries a promise-specific
+                    // feature, i.e. the companion alone and the triple alone are accepted
+                    let comp_ok = verify_observed_one(&comp.statement, &comp_proof, &CTX_A, VerifyAction::VerifyOnly).is_ok();
+                    if !base_ok || !comp_ok {
+                        continue;
+                    }
                     for first in [true, false] {
                         let (sts, proofs) = if first {
                             (vec![built.statement.clone(), comp.statement.clone()], vec![P::proof_clone(&proof), P::proof_clone(&comp_proof)])
